@@ -18,6 +18,15 @@ EDITS = [
  ("rename-pm1", "C16", "src/pollard_pm1.rs", None, ("factor", {"xr240": "x240", "fmax": "nblocks"})),
  ("swap-pm1", "C16", "src/pollard_pm1.rs", "        let xr480 = mg_mul(n, ninv, xr240, xr240);\n        let xr502 = mg_mul(n, ninv, xr480, jumps[22 / 2 - 1]);", "        let xr480 = mg_mul(n, ninv, xr240, xr240);\n\n        let xr502 = mg_mul(n, ninv, jumps[22 / 2 - 1], xr480);"),
  ("rename-batch", "C12", "src/mpqs.rs", None, ("batch_inversion", {"prodrev": "acc", "invprod": "inv_all"})),
+ ("rename-reduce64", "C09", "src/arith_gcd.rs", None, ("reduce64", {"u": "cur", "v": "nxt"})),
+ ("commute-dot", "C09", "src/arith_gcd.rs", "let neg = (ax > by && a < 0) || (ax < by && b < 0);", "let neg = (a < 0 && ax > by) || (b < 0 && ax < by);"),
+ ("comment-gcd", "C09", "src/arith_gcd.rs", "        // Now xtop and ytop have similar sizes.\n", "        // Now xtop and ytop have similar sizes\n        // (see reduce64 for the matrix bound).\n\n"),
+ ("reflow-mulword", "C09", "src/arith_gcd.rs", "        let nw = nd[i] as u128 * w as u128 + carry as u128;", "        let nw =\n            nd[i] as u128 * w as u128 + carry as u128;"),
+ ("rename-gcd", "C09", "src/arith_gcd.rs", None, ("gcd_internal", {"ax_by": "newx", "cx_dy": "newy", "negx": "flipx", "negy": "flipy"})),
+ ("swap-biggcd", "C09", "src/arith_gcd.rs", "    if p.is_zero() {\n        return *n;\n    }\n    if n.is_zero() {\n        return *p;\n    }\n    gcd_internal::<N, false>", "    if n.is_zero() {\n        return *p;\n    }\n    if p.is_zero() {\n        return *n;\n    }\n    gcd_internal::<N, false>"),
+ ("rename-chainlong", "C15", "src/ecm.rs", None, ("make_addition_chain_long", {"curbits": "cb", "nextword": "nw", "lastword": "lw"})),
+ ("comment-chainlong", "C15", "src/ecm.rs", "                exp >>= tz;\n                bits += tz;", "                // drop the zero bits\n                exp >>= tz;\n\n                bits += tz;"),
+ ("rename-pseudoprime", "C06", "src/lib.rs", None, ("pseudoprime", {"p_odd": "odd_part", "pm1": "minus_one"})),
  ("comment-factor", "C01", "src/lib.rs", "    if n.is_one() {\n        return;\n    }\n    let is_perfect_power", "    // nothing to do for 1\n    if n.is_one() {\n        return;\n    }\n\n    let is_perfect_power"),
 ]
 def fn_span(t, name):
